@@ -1,8 +1,119 @@
 import MetadorModel.Py.DrvLib
-/-! Driver stub (to be filled in). -/
-open MetadorModel
+import MetadorModel.Model.Tree
+import MetadorModel.Model.Overlay
+/-!
+Driver for the overlay model and the plain-tree reference model (C01), run in lock-step.
 
-def step (s : Unit) : List String → Unit × String
+    new                       fresh record (one container) + fresh plain tree
+    patch                     commit_patch; create_patch          -> ok
+    set P VAL | grp P | del P | sattr P K VAL | dattr P K | copy S D | move S D
+                              -> "<overlay outcome> <plain-tree outcome>"   (ok | err)
+    dump                      canonical user-visible tree of the record
+    sdump                     canonical plain tree
+    raw                       per-container raw entries, newest first (diagnostic)
+    ldump                     canonical tree of the record under the pinned (pre-F1) scan, kinds only
+
+Paths are hex-encoded absolute path strings (`/a/b`, root `/`), attribute keys hex-encoded,
+values opaque tokens from `[A-Za-z0-9:._+-]`. Keys: printable ASCII without `@`, `/`, not `.`.
+-/
+open MetadorModel MetadorModel.Drv MetadorModel.Tree MetadorModel.Overlay
+
+abbrev Val := String
+
+structure St where
+  ov : Rec Val := Rec.init
+  tree : Tree Val := Tree.init
+
+def keyOk (k : String) : Bool :=
+  !k.isEmpty && k != "." && k.toList.all (fun c => '!' ≤ c && c ≤ '~' && c != '@' && c != '/')
+
+def valOk (v : String) : Bool :=
+  !v.isEmpty && v.toList.all (fun c => c.isAlphanum || c == ':' || c == '.' || c == '_' || c == '+' || c == '-')
+
+def parsePath (h : String) : Option Path := do
+  let s ← unhexStr h
+  if s == "/" then pure []
+  else
+    match s.splitOn "/" with
+    | "" :: segs => if segs.all keyOk then pure segs else none
+    | _ => none
+
+def parseKey (h : String) : Option Key := do
+  let s ← unhexStr h
+  if keyOk s then pure s else none
+
+def showPath (p : Path) : String := hexStr ("/" ++ "/".intercalate p)
+
+def showEntry (e : Path × NKind Val × List (Key × Val)) : String :=
+  let kd := match e.2.1 with
+    | .group => "G"
+    | .data v => "D=" ++ v
+  showPath e.1 ++ ":" ++ kd ++ "[" ++ ",".intercalate (e.2.2.map (fun kv => hexStr kv.1 ++ "=" ++ kv.2)) ++ "]"
+
+def showListing (l : List (Path × NKind Val × List (Key × Val))) : String :=
+  ";".intercalate (l.map showEntry)
+
+def showRaw (c : Cont Val) : String :=
+  ";".intercalate ((sortBy (fun a b => pathLt a.1 b.1) c).map fun e =>
+    let kd := match e.2.kind with
+      | .vgroup => "v"
+      | .sgroup => "S"
+      | .data v => "D=" ++ v
+      | .del => "X"
+    showPath e.1 ++ ":" ++ kd ++ "[" ++ ",".intercalate
+      ((sortBy (fun a b => decide (a.1 < b.1)) e.2.attrs).map
+        (fun kv => hexStr kv.1 ++ "=" ++ (match kv.2 with | some v => v | none => "X"))) ++ "]")
+
+def oc {α : Type} : Except Err α → String
+  | .ok _ => "ok"
+  | .error _ => "err"
+
+def both (s : St) (op : Op Val) : St × String :=
+  let w := W.step s.ov op
+  let t := Spec.step s.tree op
+  ({ ov := match w with | .ok r => r | .error _ => s.ov,
+     tree := match t with | .ok r => r | .error _ => s.tree }, oc w ++ " " ++ oc t)
+
+def step (s : St) : List String → St × String
+  | ["new"] => ({}, "ok")
+  | ["patch"] =>
+    match W.step s.ov .patch with
+    | .ok r => ({ s with ov := r }, "ok")
+    | .error _ => (s, "err")
+  | ["set", p, v] =>
+    match parsePath p, valOk v with
+    | some p, true => both s (.set p v)
+    | _, _ => (s, "bad-op")
+  | ["grp", p] =>
+    match parsePath p with
+    | some p => both s (.grp p)
+    | none => (s, "bad-op")
+  | ["del", p] =>
+    match parsePath p with
+    | some p => both s (.del p)
+    | none => (s, "bad-op")
+  | ["sattr", p, k, v] =>
+    match parsePath p, parseKey k, valOk v with
+    | some p, some k, true => both s (.sattr p k v)
+    | _, _, _ => (s, "bad-op")
+  | ["dattr", p, k] =>
+    match parsePath p, parseKey k with
+    | some p, some k => both s (.dattr p k)
+    | _, _ => (s, "bad-op")
+  | ["copy", a, b] =>
+    match parsePath a, parsePath b with
+    | some a, some b => both s (.copy a b)
+    | _, _ => (s, "bad-op")
+  | ["move", a, b] =>
+    match parsePath a, parsePath b with
+    | some a, some b => if isPre a b then (s, "bad-op") else both s (.move a b)
+    | _, _ => (s, "bad-op")
+  | ["dump"] => (s, "T " ++ showListing (Overlay.listing s.ov))
+  | ["sdump"] => (s, "T " ++ showListing (Tree.listing s.tree))
+  | ["raw"] => (s, "R " ++ " | ".intercalate (s.ov.map showRaw))
+  | ["ldump"] =>
+    (s, "L " ++ ";".intercalate ((candidates s.ov).filterMap fun q =>
+      (Legacy.viewKind s.ov q).map fun kd => showPath q ++ ":" ++ (match kd with | .group => "G" | .data v => "D=" ++ v)))
   | _ => (s, "bad-op")
 
-def main : IO Unit := Drv.run () step
+def main : IO Unit := Drv.run ({} : St) step
